@@ -157,6 +157,54 @@ func c01Extra(c *core.Ctx, spec *refcodec.Spec) {
 	c.Add("traces_validated_against_impl", n)
 }
 
+// c10Extra: the purity oracle on the dispatcher's own paths — every message type 0..255 of both families (assigned or
+// not) in front of tails of several lengths with pairwise different octets (an input that is rejected before any element
+// is read is still an input that must not be modified; a diagnostic that quotes a long rejected PDU is code, too).
+func c10Extra(c *core.Ctx, spec *refcodec.Spec) {
+	var n int64
+	fam := map[string]*bind.Msg{}
+	for i := range spec.Messages {
+		m := &spec.Messages[i]
+		if fam[m.Family] == nil && (m.Family == "gmm" || m.Family == "gsm") {
+			fam[m.Family] = m
+		}
+	}
+	u := 0
+	for _, f := range []string{"gmm", "gsm"} {
+		m := fam[f]
+		if m == nil {
+			continue
+		}
+		for t := 0; t < 256; t++ {
+			u++
+			if !c.Mine(u) {
+				continue
+			}
+			if !c.Begin("routing", f, map[string]any{"family": f, "type": t}) {
+				continue
+			}
+			for _, tl := range []int{0, 1, 13, 60, 61, 124, 125, 126, 200, 300, 1100} {
+				hdr := []byte{0x7E, 0x00, byte(t)}
+				if f == "gsm" {
+					hdr = []byte{0x2E, 0x01, 0x02, byte(t)}
+				}
+				data := append([]byte{}, hdr...)
+				for i := 0; i < tl; i++ {
+					data = append(data, byte(i*7+3+i/256))
+				}
+				for _, e := range []string{"plain", "family"} {
+					n++
+					c10Exec(c, m, e, data, n)
+				}
+			}
+		}
+		c.Tick()
+	}
+	c.Add("routing_inputs", n)
+	c.Add("evaluations", n)
+	c.Add("traces_validated_against_impl", n)
+}
+
 // C04 static half --------------------------------------------------------------------------------
 
 type staticCase struct {
